@@ -30,7 +30,7 @@ import (
 )
 
 func init() {
-	register(&Scenario{Name: "lbmix", Props: []string{"C12", "C03", "C11"}, Kind: "micro", Run: runLBMix})
+	register(&Scenario{Name: "lbmix", Props: []string{"C12", "C03", "C11", "C13"}, Kind: "micro", Run: runLBMix})
 }
 
 func runLBMix(x *X) {
@@ -252,6 +252,32 @@ func runLBMix(x *X) {
 	}
 	if !x.dead {
 		x.Advance(3*time.Second, onErr)
+	}
+	// ---- C13: whatever the mix did, every request that reached the balancer is in the books once ----
+	if !x.dead && x.Settle(onErr) {
+		var total, okc, failc, rl uint64
+		x.Do("metrics", func() {
+			m := h.lb.GetMetricsCollector().GetMetrics()
+			total, okc, failc, rl = m.TotalRequests, m.SuccessfulRequests, m.FailedRequests, m.RateLimitedRequests
+		}, onErr)
+		x.mu.Lock()
+		reached := uint64(h.reached)
+		x.mu.Unlock()
+		held := uint64(0)
+		net.mu.Lock()
+		for _, b := range net.order {
+			held += uint64(b.inflight)
+		}
+		net.mu.Unlock()
+		if !x.dead && held == 0 {
+			if total != reached {
+				x.Violate("C13", "C13/total-mismatch{mix}", "total_requests=%d but %d requests reached the balancer during a mix of traffic, admin calls, strategy switches and ejections", total, reached)
+			} else if okc+failc+rl != total {
+				x.Violate("C13", "C13/classes-do-not-add-up{mix}", "successful(%d)+failed(%d)+rate_limited(%d) != total_requests(%d) after a mix of traffic, admin calls, strategy switches and ejections with nothing in flight", okc, failc, rl, total)
+			} else {
+				x.Probe("mix-books-balance")
+			}
+		}
 	}
 	x.checkPanics()
 	x.Probe("mix-completed")
